@@ -184,7 +184,9 @@ Definition res_of_found (f : found) : res :=
   end.
 
 (* a query: which name of which import statement (what _prepare_infer_import computes) *)
-Record query := { q_level : nat; q_path : list str; q_name : option str; q_probe : option str }.
+(* q_alias: the imported name is renamed (`from X import x as y`), so the statement does not bind x *)
+Record query := { q_level : nat; q_path : list str; q_name : option str; q_probe : option str;
+                  q_alias : bool }.
 
 Fixpoint strs_eqb (a b : list str) : bool :=
   match a, b with
@@ -442,9 +444,10 @@ Definition jedi_query (goto : bool) (fs : node) (roots : list path) (self : mval
                         else RNone
           end
       | None, Some x =>
-          (* importing from the analysed module itself: in the buffer the statement itself binds x,
-             the lookup recurses into this very import and yields nothing -> plain fallback *)
-          match (if strs_eqb (v_file v) (v_file self) then (LNothing, c1) else getattr fs c1 roots v x) with
+          (* importing from the analysed module itself: in the buffer the statement itself binds x
+             (unless renamed), the lookup recurses into this very import and yields nothing -> plain fallback *)
+          match (if strs_eqb (v_file v) (v_file self) && negb (q_alias q)
+                 then (LNothing, c1) else getattr fs c1 roots v x) with
           | (LAttr f n d, _) => RAttr f n d
           | (LVal v', _) => res_of_val v'
           | (LUnres, c2) =>
